@@ -62,7 +62,7 @@ PROPS = {
     'C10': dict(jobs=[('repro', 'repro', 1.0)], quick_n=100, workers=10,
                 rule='completed scenario with a >=3-node workflow on a heterogeneous cluster, run 2x in-process and in 3 fresh interpreters with other PYTHONHASHSEED',
                 nontrivial=lambda o: o['probes'].get('hetero_wide_completed')),
-    'C11': dict(jobs=[('pause', 'real', 1.0)], quick_n=90,
+    'C11': dict(jobs=[('pause', 'real', 1.0)], quick_n=60,
                 rule='scenario whose pause points include one mid-ingest or mid-task',
                 nontrivial=lambda o: o['probes'].get('pause_mid_ingest') or o['probes'].get('pause_mid_task')),
     'C12': dict(jobs=[('sim', 'real', .85), ('pause_sample', 'real', .15)], quick_n=1200,
